@@ -236,6 +236,18 @@ impl Sched {
 
     /// A scheduling point of simulated thread `tid`.
     pub fn point(&self, tid: usize, site: &'static str) {
+        self.point_inner(tid, site, true)
+    }
+
+    /// A scheduling point reached from a context that must not unwind (an interposed libc
+    /// function): no crash injection, and an aborted run simply lets the thread go on.
+    pub fn point_no_unwind(&self, tid: usize, site: &'static str) {
+        let _ = std::panic::catch_unwind(std::panic::AssertUnwindSafe(|| {
+            self.point_inner(tid, site, false)
+        }));
+    }
+
+    fn point_inner(&self, tid: usize, site: &'static str, may_crash: bool) {
         let mut s = self.lock();
         if s.abort.is_some() {
             drop(s);
@@ -261,7 +273,7 @@ impl Sched {
             std::panic::panic_any(Sentinel::Abort);
         }
         let k = s.per_thread[tid];
-        if s.in_call[tid] {
+        if s.in_call[tid] && may_crash {
             if let Some(pos) = s.crash_points.iter().position(|(t, n)| *t == tid && *n == k) {
                 s.crash_points.remove(pos);
                 s.crashes_fired += 1;
